@@ -35,6 +35,7 @@ type c14Scenario struct {
 	Unique   bool     `json:"unique_logger"`
 	ChanCap  int      `json:"chan_cap"`
 	ViaRC    bool     `json:"through_result_chan,omitempty"` // results are handed over with scan.ResultChan.Put (capacity = chan_cap, at least 1)
+	Chunks   []string `json:"log_calls_end_after,omitempty"`  // like a scan split into port chunks: LogResults is called once per chunk on the same channel, each call ends by its own cancel after this long
 	Flush    string   `json:"flush_interval"`
 	PauseMax string   `json:"producer_pause_below,omitempty"`
 	OutStall string   `json:"output_stall,omitempty"`
@@ -370,6 +371,10 @@ func runC14(t *testing.T, c simrt.Chooser, o Opts) *Out {
 		sc.ViaRC = true
 		sc.ChanCap = p.pick("rccap", 1, 2, 8, 1000)
 	}
+	nChunks := 0
+	if sc.ViaRC && p.pct("chunks", 40) {
+		nChunks = 1 + p.n("nchunks", 3)
+	}
 	flush := []time.Duration{time.Millisecond, 100 * time.Millisecond, time.Second}[p.n("flush", 3)]
 	sc.Flush = flush.String()
 	var pauseMax time.Duration
@@ -385,6 +390,12 @@ func runC14(t *testing.T, c simrt.Chooser, o Opts) *Out {
 		stallFor = p.dur("stallfor", flush/2, 4*flush)
 		sc.OutStall = fmt.Sprintf("every %d writes for %v", stallEvery, stallFor)
 	}
+	if sc.Unique {
+		nChunks = 0 // (the de-duplicating logger is only used by `arp --live`, which is never split)
+	}
+	for i := 0; i < nChunks; i++ {
+		sc.Chunks = append(sc.Chunks, p.dur("chunkend", 0, time.Duration(sc.Results+1)*(pauseMax+stallFor+time.Microsecond)).String())
+	}
 	// identity pool so that ids repeat in arbitrary patterns
 	var pool []string
 	for i := p.n("npool", 5); i > 0; i-- {
@@ -397,7 +408,7 @@ func runC14(t *testing.T, c simrt.Chooser, o Opts) *Out {
 		// de-duplication over a large population: every host of 10.0.0.0/14 once, in order, with a
 		// repeat of an earlier host after every eighth one
 		sc.Type, sc.Unique, sc.ChanCap, sc.Results = "arp", true, 1000, 0
-		sc.ViaRC = false
+		sc.ViaRC, sc.Chunks = false, nil
 		pauseMax, stallEvery, stallFor = 0, 0, 0
 		sc.PauseMax, sc.OutStall = "", ""
 		mk := func(a uint32) {
@@ -461,6 +472,16 @@ func runC14(t *testing.T, c simrt.Chooser, o Opts) *Out {
 				simrt.Sleep("c14.settle", time.Duration(len(results)+2)*(stallFor+flush)+time.Second)
 				simrt.Cancel("c14.cancel", cancel)
 			})
+			for _, d := range sc.Chunks {
+				cctx, ccancel := context.WithCancel(ctx)
+				dd := parseDur(d)
+				simrt.Go("c14.chunk-end", func() {
+					simrt.Sleep("c14.chunk", dd)
+					simrt.Cancel("c14.chunk.cancel", ccancel)
+				})
+				logger.LogResults(cctx, rc.Chan())
+				ccancel()
+			}
 			logger.LogResults(ctx, rc.Chan())
 			done = true
 			return
